@@ -135,34 +135,43 @@ def Innate.cooling (im : Innate) (now : Nat) : Bool :=
   | none => false
   | some t => now < t
 
+/-- the inflammation level for matched patterns `ms` and rejecting validators `errs` at time `now` -/
+def Innate.levelOf (im : Innate) (now : Nat) (ms : List Sig) (errs : List Validator) : Nat :=
+  newLevel im.cuts (sumLevels ms + errs.length * im.cuts.errWeight) (maxLevel ms) (ms.length + errs.length)
+    (im.cooling now)
+
 /-- the inflammation level `check` computes for content `c` at time `now`, given the rejecting validators -/
 def Innate.levelFor (env : Env) (im : Innate) (now : Nat) (c : Str) (errs : List Validator) : Nat :=
-  newLevel im.cuts (sumLevels (matched env im.patterns c) + errs.length * im.cuts.errWeight)
-    (maxLevel (matched env im.patterns c)) ((matched env im.patterns c).length + errs.length) (im.cooling now)
+  im.levelOf now (matched env im.patterns c) errs
+
+/-- last part of `check`: state update and allow rule, given matches, structural errors and the level -/
+def Innate.conclude (im : Innate) (now : Nat) (ms : List Sig) (errs : List Validator) (lvl : Nat) :
+    Innate × Out CheckRes :=
+  if maxLevel ms < im.sevThreshold ∧ errs = [] ∧ lvl < lvlAcute then
+    if lvl > lvlNone then
+      ({ im with checkCount := im.checkCount + 1
+                 inflLevel := lvl, triggerCount := im.triggerCount + 1
+                 cooldownUntil := some (now + im.decay) },
+       .ok ⟨true, ms, errs, lvl⟩)
+    else
+      ({ im with checkCount := im.checkCount + 1 }, .ok ⟨true, ms, errs, lvl⟩)
+  else
+    if lvl > lvlNone then
+      ({ im with checkCount := im.checkCount + 1, blockCount := im.blockCount + 1
+                 inflLevel := lvl, triggerCount := im.triggerCount + 1
+                 cooldownUntil := some (now + im.decay) },
+       .ok ⟨false, ms, errs, lvl⟩)
+    else
+      ({ im with checkCount := im.checkCount + 1, blockCount := im.blockCount + 1 }, .ok ⟨false, ms, errs, lvl⟩)
+
+/-- `check` after phase 1 (pattern matching gave `ms`) and phase 2 (the validator loop returned or raised) -/
+def Innate.checkWith (im : Innate) (now : Nat) (ms : List Sig) : Out (List Validator) → Innate × Out CheckRes
+  | .raise k => ({ im with checkCount := im.checkCount + 1 }, .raise k)
+  | .ok errs => im.conclude now ms errs (im.levelOf now ms errs)
 
 /-- `InnateImmunity.check(content)` at time `now`. -/
 def Innate.check (env : Env) (im : Innate) (now : Nat) (c : Str) : Innate × Out CheckRes :=
-  match runValidators env im.validators c with
-  | .raise k => ({ im with checkCount := im.checkCount + 1 }, .raise k)
-  | .ok errs =>
-    if maxLevel (matched env im.patterns c) < im.sevThreshold ∧ errs = [] ∧ im.levelFor env now c errs < lvlAcute then
-      if im.levelFor env now c errs > lvlNone then
-        ({ im with checkCount := im.checkCount + 1
-                   inflLevel := im.levelFor env now c errs, triggerCount := im.triggerCount + 1
-                   cooldownUntil := some (now + im.decay) },
-         .ok ⟨true, matched env im.patterns c, errs, im.levelFor env now c errs⟩)
-      else
-        ({ im with checkCount := im.checkCount + 1 },
-         .ok ⟨true, matched env im.patterns c, errs, im.levelFor env now c errs⟩)
-    else
-      if im.levelFor env now c errs > lvlNone then
-        ({ im with checkCount := im.checkCount + 1, blockCount := im.blockCount + 1
-                   inflLevel := im.levelFor env now c errs, triggerCount := im.triggerCount + 1
-                   cooldownUntil := some (now + im.decay) },
-         .ok ⟨false, matched env im.patterns c, errs, im.levelFor env now c errs⟩)
-      else
-        ({ im with checkCount := im.checkCount + 1, blockCount := im.blockCount + 1 },
-         .ok ⟨false, matched env im.patterns c, errs, im.levelFor env now c errs⟩)
+  im.checkWith now (matched env im.patterns c) (runValidators env im.validators c)
 
 def Innate.addPattern (im : Innate) (s : Sig) : Innate := { im with patterns := im.patterns ++ [s] }
 
